@@ -1,4 +1,5 @@
 """API-only observation of a graph state, plus the structural de-duplication key."""
+import numbers
 import hashlib
 from .universes import FLAVOURS, node_of
 from .model import runs_of
@@ -19,11 +20,11 @@ def probe_times(G, conf, extra=()):
     ts = set(range(o - 1, o + conf['w'] + 2))
     ts.update(extra)
     try:
-        ts.update(t for t in G.temporal_snapshots_ids() if isinstance(t, int))
+        ts.update(t for t in G.temporal_snapshots_ids() if isinstance(t, numbers.Integral))
     except Exception:
         pass
     try:
-        ts.update(ev[3] for ev in G.stream_interactions() if isinstance(ev[3], int))
+        ts.update(ev[3] for ev in G.stream_interactions() if isinstance(ev[3], numbers.Integral))
     except Exception:
         pass
     try:
@@ -31,7 +32,7 @@ def probe_times(G, conf, extra=()):
         for it in its:
             for iv in it[2]['t']:
                 for x in iv:
-                    if isinstance(x, int):
+                    if isinstance(x, numbers.Integral):
                         ts.add(x)
                         ts.add(x + 1)
                         ts.add(x - 1)
